@@ -25,6 +25,7 @@ def run(ck, tier, seed):
             js = corpus.jobs(maxlines=maxlines, pairs=pairs, opts=opts, with_fonttests=True)
             js += corpus.collision_jobs(tmp, n=40 if q else 400, opts=opts)
             js += corpus.random_jobs(n=60 if q else 1500, seed=seed, opts=opts)
+            js += corpus.manytables_jobs(tmp, opts=opts)
             for j in js:
                 j["src"] = src
             jf = os.path.join(tmp, "jobs_%s_%d.ndjson" % (src, opts))
